@@ -443,11 +443,11 @@ theorem still_backendClose (S : Strs) (s : State) (b : Nat) : Still s (backendCl
       rw [failFrags_eq]
       exact still_foldl_cstep S _ s
 
-theorem still_expire (S : Strs) (s : State) : Still s (expire S s) := by
+theorem still_expire (S : Strs) (s : State) (n : Nat) : Still s (expire S s n) := by
   unfold expire
   dsimp only
-  refine Still.trans (b := List.foldl _ s s.timeouts) ?_ (still_of_eq _ _ rfl rfl rfl)
-  generalize s.timeouts = ts
+  refine Still.trans (b := List.foldl _ s ((liveDeadlines s).take n)) ?_ (still_of_eq _ _ rfl rfl rfl)
+  generalize (liveDeadlines s).take n = ts
   induction ts generalizing s with
   | nil => exact Still.refl s
   | cons f fs ih =>
@@ -806,7 +806,7 @@ theorem j_step (T : Tables) (S : Strs) (cfg : Cfg) (slotFn : Bytes → Nat) (s :
     | runTasks => exact j_still _ _ (still_runTasks S cfg s) h
     | backendBytes b chunk => exact j_backendBytes T S cfg slotFn s b chunk h
     | backendClose b => exact j_still _ _ (still_backendClose S s b) h
-    | expire => exact j_still _ _ (still_expire S s) h
+    | expire n => exact j_still _ _ (still_expire S s n) h
     | poolRemove p => exact j_poolRemove s p h
 
 theorem j_run (T : Tables) (S : Strs) (cfg : Cfg) (slotFn : Bytes → Nat) (es : List Event) (s : State) (h : J s) :
